@@ -124,6 +124,7 @@ def run(tier):
     rule_R3(res, prog, cg, consts, runs)
     rule_R1(res, prog, cg, consts, tr, eng)
     rule_R4(res, prog)
+    rule_R5(res, prog)
     return res.finish()
 
 
@@ -416,3 +417,39 @@ def rule_R4(res, prog):
                          path is None, finding=f_)
     res.floor("C15.R4", 1)
 
+
+def rule_R5(res, prog):
+    """A received fatal alert is judged by the level byte the peer sent: in the record decoders the alert level handed
+    on (and tested for `fatal`) is either the byte read from the record or the constant `fatal` of the library's own
+    alerts - it is never rewritten to another constant (a decoder that downgrades some received alert to `warning` before
+    the fatal test lets the session live on after a fatal alert)."""
+    rid = "C15.R5"
+    res.rule(rid, "the alert level reported by the decoders is the received byte or the constant fatal, never another constant")
+    FATAL = prog.const("SSL_ALERT_LEVEL_FATAL")
+    n = 0
+    for fn in sorted(prog.functions.values(), key=lambda f: f.qname):
+        if not fn.blocks or not fn.relfile.startswith("matrixssl/"):
+            continue
+        pidx = {p_.get("id"): p_.get("n") for p_ in fn.params}
+        for b, ln, nd in fn.nodes():
+            if nd.get("k") != "bin" or nd["op"] != "=":
+                continue
+            l = strip(nd["l"])
+            if l is None or l.get("k") != "un" or l["op"] != "*":
+                continue
+            v = strip(l["e"])
+            if v is None or v.get("k") != "var" or "alertLevel" not in (v.get("n") or ""):
+                continue
+            n += 1
+            r = strip(nd["r"])
+            while r is not None and r.get("k") == "cast":
+                r = strip(r["e"])
+            ok = not (r is not None and r.get("k") == "int" and r["v"] != FATAL)
+            f_ = None
+            if not ok:
+                f_ = Finding(PROP, rid, fn.name, "alert level overwritten with the constant %d" % r["v"],
+                             "%s:%s %s(): *%s = %d rewrites the level of an alert before it is judged: a fatal alert (level 2) of the "
+                             "affected description no longer sets SSL_FLAGS_ERROR and the session goes on parsing, encrypting and "
+                             "delivering data" % (fn.relfile, ln, fn.name, v["n"], r["v"]), file=fn.relfile, line=ln)
+            res.instance(rid, "%s:%s *%s = %s" % (fn.name, ln, v["n"], "const %d" % r["v"] if r is not None and r.get("k") == "int" else "received / computed"), ok, finding=f_)
+    res.floor(rid, 3)
